@@ -11,6 +11,7 @@ handler's; `C06_handle_with_filter_path` is the counterpart of `C06_error_path` 
 import Restful.Lemmas.Chain
 import Restful.Model.Conc
 import Restful.Gen.Facts
+import Restful.Lemmas.StateShape
 namespace Restful
 namespace Props
 open Serve
@@ -324,6 +325,12 @@ theorem C06_chain_is_fresh_fact :
     Conc.reachableAliasAppends (Conc.analysis Gen.fnNames Gen.items Conc.servingEntries) = [] ∧
     Conc.reachableWrites (Conc.analysis Gen.fnNames Gen.items Conc.servingEntries) = [] := by
   decide +kernel
+
+/-! The frame condition (Lemmas/StateShape.lean): the code has exactly the state this property's model
+    accounts for — no further package-level variable, struct type or field; constants as modelled. -/
+-- also: Restful.StateShape.globals_shape
+-- also: Restful.StateShape.consts_shape
+-- also: Restful.StateShape.container_shape
 
 end Props
 end Restful
